@@ -145,6 +145,12 @@ type World struct {
 	proxyUp   bool
 	authUp    bool
 	BootErr   error
+
+	firedMu sync.Mutex
+	Fired   map[string]int // fault kinds that actually fired (not merely armed)
+
+	// OnExchange is called after every browser-side exchange completes (oracles).
+	OnExchange func(*Exchange)
 }
 
 // StatSink receives statsd lines (probe channel; no socket).
@@ -177,6 +183,16 @@ outer:
 		n++
 	}
 	return n
+}
+
+// Fire counts one fault that actually took effect.
+func (w *World) Fire(kind string) {
+	w.firedMu.Lock()
+	if w.Fired == nil {
+		w.Fired = map[string]int{}
+	}
+	w.Fired[kind]++
+	w.firedMu.Unlock()
 }
 
 // linkFor maps a destination host to the link a browser reaches it over.
